@@ -408,6 +408,17 @@ func (fc *FuncCtx) applyContract(st *State, call *ast.CallExpr, fn *types.Func, 
 			fc.fail(call, "modifies clause of %s names unknown root %s", fn.Name(), root)
 		}
 	}
+	// fields that no contract can name may be changed by any callee that gets a pointer to them
+	if !c.Trusted {
+		for i, a := range args {
+			if _, isPtr := a.typ.Underlying().(*types.Pointer); !isPtr {
+				continue
+			}
+			for _, path := range fc.w.irrelevantPaths(a.typ, 0) {
+				post[i] = fc.compact(fc.setPath(post[i], path, func(old Term) Term { return fc.fresh("m_"+fn.Name()+"_"+a.name, old.T) }))
+			}
+		}
+	}
 	for i, a := range args {
 		postEnv.vars[a.name] = post[i]
 	}
@@ -431,6 +442,14 @@ func (fc *FuncCtx) applyContract(st *State, call *ast.CallExpr, fn *types.Func, 
 	for _, e := range c.Ensures {
 		t := fc.cevalIn(postEnv, e, call)
 		fc.assume(st, t.S)
+	}
+	// `opt filesource <callee>`: the call reads the configuration file; when it fails no key is present
+	// (this is what "present in the file" means when there is no readable file)
+	if fc.contract != nil && fc.contract.Opts["filesource"] == fn.Name() && fc.w.Uninterps["fileHas"] != nil && len(results) > 0 {
+		errT := results[len(results)-1]
+		fc.w.declareUninterp(fc.w.Uninterps["fileHas"])
+		fc.assume(st, implies(not(fc.reg().isNil(errT)), "(forall ((k Str)) (! (not (u_fileHas k)) :pattern ((u_fileHas k))))"))
+		fc.usedContracts["assumed: when the configuration file cannot be read, no key is present in it (meaning of fileHas)"] = true
 	}
 	// returned pointers that are elements of a slice argument: the receiving variable becomes an alias
 	fc.pendingAlias = nil
